@@ -125,7 +125,14 @@ Definition frag1 (fb : flat) : bool :=
     enumerator samples from ([design_partition]: the first with sustain 1); the
     other crossings are enforced by rejection ([__are_constraints_violated]:
     [combinations_mismatched_weights] on every repetition).  All crossings are
-    over plain factors, without preamble and with sustain 1.
+    over plain factors and without preamble.
+
+    Sustained crossings (Nest): a crossing other than the sampled one may have a
+    sustain count > 1 (its size is then (sum of weights) x sustain; its factors
+    are free factors for the sampler).  That its factors keep their level for
+    [sustain] trials is checked by rejection ([Sustain.potential_sample_conforms]);
+    the trial count must be a multiple of every sustain count (otherwise the
+    check reads past the end of the row).
 
     Implied factors: [act_design] (the factors RandomGen samples) may leave out
     derived factors of the design that nothing uses; they must be within-trial
@@ -141,6 +148,11 @@ Definition frag1 (fb : flat) : bool :=
     derived levels of the trial's instance allow
     ([_valid_source_combinations_indices]).  Then there is one crossing only,
     and every instance must allow at least one source combination. *)
+(** the crossing the enumerator samples from: the first one with sustain 1 ([design_partition]) *)
+Fixpoint main_idx_of (ss : list nat) : nat :=
+  match ss with [] => 0 | s :: t => if s =? 1 then 0 else S (main_idx_of t) end.
+Definition main_idx (fb : flat) : nat := main_idx_of (fl_sustains fb).
+Definition main_crossing_of (fb : flat) : list nat := nth (main_idx fb) (fl_crossings fb) [].
 Definition level_weight_nat (fb : flat) (f l : nat) : nat :=
   match nth_error (levels_of fb f) l with Some lv => lv_weight lv | None => 1 end.
 Definition combo_weight (fb : flat) (di : asg) : nat :=
@@ -154,7 +166,8 @@ Definition constraint_f2 (fb : flat) (k : fconstraint) : bool :=
   | FAtMost _ f l wb | FAtLeast _ f l wb | FExactlyK _ f l wb | FExactlyKInARow _ f l wb =>
     isact fb f && (l <? nlevels fb f) && geom_ok fb wb
   | FPin _ f l wb => isact fb f && (l <? nlevels fb f) && geom_ok fb wb && (geometry_sustain fb wb f =? 1)
-  | FSequential f => isact fb f && (0 <? nlevels fb f)
+  | FSequential f => isact fb f && (0 <? nlevels fb f) && (sustain_of fb f =? 1)
+  | FSustain => true
   | _ => false
   end.
 (** [act_design] lists its factors in design order, each once *)
@@ -178,7 +191,7 @@ Definition is_basic_f (fb : flat) (d : nat) : bool :=
 Definition crossed_derived_fd (fb : flat) (f : nat) (fd : ffactor) : bool :=
   match ff_window fd with
   | Some w => negb (ff_complex fd) && (win_width w =? 1) && (win_stride w =? 1) && (win_start w =? 0)
-              && memb f (hd [] (fl_crossings fb)) && forallb (fun d => isact fb d && is_basic_f fb d) (win_deps w)
+              && memb f (main_crossing_of fb) && forallb (fun d => isact fb d && is_basic_f fb d) (win_deps w)
   | None => false
   end.
 Definition factors_ok (fb : flat) : bool :=
@@ -200,15 +213,23 @@ Definition allowed_combos2 (fb : flat) (c : list nat) : list (list nat) :=
   filter (fun ls => negb (is_excluded_or_inconsistent_combination fb (combine c ls))) (product (map (all_levels fb) c)).
 Definition act_levels_nonempty (fb : flat) : bool :=
   forallb (fun f => 0 <? length (nonexcluded_levels fb f)) (fl_act fb).
-Definition crossing_size_ok (fb : flat) (cs : list nat * nat) : bool :=
-  (snd cs =? list_sum (map (fun ls => combo_weight fb (combine (fst cs) ls)) (allowed_combos2 fb (fst cs)))) && (0 <? snd cs).
+(** a crossing with its size and its sustain count: the size is (sum of the combination weights) x sustain *)
+Definition crossing_size_ok (fb : flat) (csu : list nat * nat * nat) : bool :=
+  let '(c, s, su) := csu in
+  (s =? list_sum (map (fun ls => combo_weight fb (combine c ls)) (allowed_combos2 fb c)) * su) && (0 <? s)
+  && (match c with [] => 1 | f :: _ => sustain_of fb f end =? su) && (sustain_of fb (hd 0 c) =? su).
 Definition plain_crossings (fb : flat) : bool :=
   let k := length (fl_crossings fb) in
   (0 <? k) && forallb (crossing_plain fb) (fl_crossings fb)
-  && (length (fl_sustains fb) =? k) && forallb (Nat.eqb 1) (fl_sustains fb)
+  && (length (fl_sustains fb) =? k) && forallb (Nat.ltb 0) (fl_sustains fb) && existsb (Nat.eqb 1) (fl_sustains fb)
+  && forallb (fun f => sustain_of fb f =? 1) (main_crossing_of fb)
+  && match first_index_of (main_crossing_of fb) (fl_crossings fb) 0 with Some j => j =? main_idx fb | None => false end
+  && forallb (fun su => fl_trials fb mod su =? 0) (fl_sustains fb)
+  && (forallb (Nat.eqb 1) (fl_sustains fb)
+      || existsb (fun k => match k with FSustain => true | _ => false end) (fl_constraints fb))
   && (length (fl_weights fb) =? k) && forallb (Nat.ltb 0) (fl_weights fb)
   && (length (fl_preambles fb) =? k) && forallb (Nat.eqb 0) (fl_preambles fb) && (fl_alignment_preamble fb =? 0)
-  && (length (fl_sizes fb) =? k) && forallb (crossing_size_ok fb) (combine (fl_crossings fb) (fl_sizes fb)).
+  && (length (fl_sizes fb) =? k) && forallb (crossing_size_ok fb) (combine (combine (fl_crossings fb) (fl_sizes fb)) (fl_sustains fb)).
 
 Definition frag2 (fb : flat) : bool :=
   plain_crossings fb && forallb (constraint_f2 fb) (fl_constraints fb) && exclude_consistent fb
